@@ -76,8 +76,7 @@ def innerNodes (K1 : Bytes) : List Bytes → Bytes → Nat → Option Bitset →
     let nxt ← psi cfg lv K1 (ctr + 1)
     let node := id ++ kj ++ (← nxt.toBytes)
     let addr ← psi cfg lv K1 ctr
-    let (iv, t2) ← takeBytes 16 t1
-    let c ← cfg.ske1.encrypt lv.E prevKey iv node
+    let (c, t2) ← skeEncrypt cfg.ske1 lv prevKey node t1
     let A' ← setCell A addr.value c
     innerNodes K1 rest kj (ctr + 1) (first.or (some addr)) A' t2
 
@@ -91,8 +90,7 @@ def encDb (K1 K2 K3 : Bytes) : DB → Nat → List Bytes → Table → Tape → 
       | none => throw .indexError
     let lastNode := lastId ++ zeros cfg.k.toNat ++ zeros cfg.log2sBytes
     let lastAddr ← psi cfg lv K1 ctr1
-    let (iv, t3) ← takeBytes 16 t2
-    let c ← cfg.ske1.encrypt lv.E lastKey iv lastNode
+    let (c, t3) ← skeEncrypt cfg.ske1 lv lastKey lastNode t2
     let A2 ← setCell A1 lastAddr.value c
     let firstAddr := first.getD lastAddr
     let gamma ← piBytes cfg lv K3 w
@@ -125,8 +123,7 @@ def setup (key : List Bytes) (db : DB) (t : Tape) : Except Err (SSE1EDB × Tape)
   match key with
   | [K1, K2, K3, _] => do
     let (A, T, t1) ← encDb cfg lv K1 K2 K3 db 1 (List.replicate cfg.s.toNat [0]) [] t
-    let (iv, t2) ← takeBytes 16 t1
-    let probe ← cfg.ske1.encrypt lv.E (zeros cfg.k.toNat) iv (zeros (cfg.idSize + cfg.k + cfg.log2sBytes).toNat)
+    let (probe, t2) ← skeEncrypt cfg.ske1 lv (zeros cfg.k.toNat) (zeros (cfg.idSize + cfg.k + cfg.log2sBytes).toNat) t1
     let (A', t3) ← fillA probe.length A t2
     let (T', t4) ← fillT cfg.l.toNat cfg.prfF.outputLength.toNat (cfg.dictSize.toNat - T.length) T t3
     pure ({ A := A', T := T' }, t4)
